@@ -9,6 +9,7 @@ import (
 	"math/rand"
 	"os"
 	"sync"
+	"sync/atomic"
 	"time"
 
 	"github.com/B1NARY-GR0UP/originium/pkg/verifhook"
@@ -109,7 +110,10 @@ type WmResult struct {
 	Waits   int    `json:"waits"`
 	FinalDu int    `json:"final_du"`
 	Stuck   string `json:"stuck,omitempty"`
+	Skipped bool   `json:"skipped,omitempty"`
 }
+
+var wmStuck atomic.Int32
 
 // runWm executes a scenario on a fresh real WaterMark.
 func runWm(s WmScenario) ([]WmEvent, WmResult) {
@@ -225,7 +229,7 @@ func runWm(s WmScenario) ([]WmEvent, WmResult) {
 	// quiesce: all Begin/Done calls returned => wait until the consumer has taken every mark
 	waitAll := make(chan struct{})
 	go func() { wg.Wait(); close(waitAll) }()
-	deadline := time.Now().Add(60 * time.Second)
+	deadline := time.Now().Add(30 * time.Second)
 	for {
 		cmu.Lock()
 		m := marks
@@ -509,6 +513,17 @@ func cmdWm(args []string) int {
 		go func(i int) {
 			defer wg.Done()
 			defer func() { <-sem }()
+			if wmStuck.Load() >= 3 {
+				// a watermark that stops moving makes every further scenario wait out its time limits:
+				// three stuck scenarios are reported, the rest is not run
+				results[i] = WmResult{ID: scen[i].ID, Skipped: true}
+				return
+			}
+			defer func() {
+				if results[i].Stuck != "" {
+					wmStuck.Add(1)
+				}
+			}()
 			if scen[i].Mode == "stampede" {
 				evs[i], results[i] = runStampede(scen[i].ID, 400, 1+i%3)
 				return
